@@ -216,6 +216,14 @@ def ref_rot_hash(cls, version, raws, rot_meta_bytes):
 
 
 # ====================================================================================================== run
+def _tick(ck, name, _t=[None]):
+    import time
+    now = time.time()
+    if _t[0] is not None:
+        ck.extra.setdefault("timing_s", {})[_t[0][0]] = round(now - _t[0][1], 1)
+    _t[0] = (name, now)
+
+
 def run(ck):
     try:
         from spsdk.crypto.signature_provider import get_signature_provider
@@ -234,7 +242,9 @@ def run(ck):
     import logging
     logging.getLogger("spsdk").setLevel(logging.ERROR)
     logging.disable(logging.WARNING)
+    _tick(ck, "lean")
     ck.lean_obligations(generated=["DatConsts"])
+    _tick(ck, "setup+tables")
     drv = ck.driver()
     ck.assume("public keys are modelled as their exported byte strings; PublicKey.parse/export round trip is C08's subject",
               "RSA / ECDSA primitives are those of `cryptography` (OpenSSL): signatures are produced by SPSDK and verified independently with it; "
@@ -342,6 +352,7 @@ def run(ck):
                       "says so) -> DAC.parse fields, validate_against_dc, DebugAuthenticateResponse.create/export; independent verification of the "
                       "response signature; re-verification against SPSDK's message for another challenge / credential / UUID must fail")
 
+    _tick(ck, "dc+dar loop")
     ele_v1 = [f for f in families if info[f]["ele"] and info[f]["cnt_ver"] == 1]
     ele_v1_revs = [(f, rev) for f in families if info[f]["ele"] for rev in info[f]["revs"]
                    if live_rows[(f, rev)][1] == "true" and live_rows[(f, rev)][2] == "1"]
@@ -366,7 +377,7 @@ def run(ck):
             for used in range(n):
                 cases.append((rng.choice(classic), None, v, n, used, False, rng.random() < 0.5))
     for f in classic:
-        cases.append((f, rng.choice([None] + info[f]["revs"]), rng.choice(list(VERSIONS)), rng.randint(1, 4), 0, rng.random() < 0.3, rng.random() < 0.5))
+        cases.append((f, None, rng.choice(list(VERSIONS)), rng.randint(1, 4), 0, rng.random() < 0.3, rng.random() < 0.5))
     for (f, rev) in ele_v1_revs:
         for v in VERSIONS:
             cases.append((f, rev, v, 4, rng.randrange(4), False, rng.random() < 0.5))
@@ -649,16 +660,29 @@ def run(ck):
         reqs_dar.append((dinp, f"dac_validate {fam} " + dac_tokens(dac) + " " + toks, "ok:" if vr[0] == "ok" else vr[0], "model validate_against_dc differs"))
 
         # response
-        def mk_dar(d_c=dc, d_ac=dac, ab=auth_beacon):
-            if not rev:
+        def mk_dar(d_c=dc, d_ac=dac, ab=auth_beacon, public=True):
+            if not rev and public:
                 # the public entry point (nxpdebugmbox dat auth): picks the response class and the padding itself
                 return DAR.create(family=fam, version=None, dc=d_c, auth_beacon=ab, dac=d_ac, dck=kk["dck"][0])
-            klass = DAR._get_class(family=fam, protocol_version=d_c.version, revision=rev)
-            return klass(family=fam, debug_credential=d_c, auth_beacon=ab, dac=d_ac, sign_provider=dck_sp(kk["dck"][0], pss), revision=rev)
+            klass = DAR._get_class(family=fam, protocol_version=d_c.version, revision=rev or "latest")
+            return klass(family=fam, debug_credential=d_c, auth_beacon=ab, dac=d_ac, sign_provider=dck_sp(kk["dck"][0], pss), revision=rev or "latest")
         rr = pyres(lambda: (lambda d: (d, d.export(), d._get_data_for_signature(), d._get_common_data()))(mk_dar()))
         if not s_dar.expect(rr[0] == "ok", dinp, "building / exporting the authentication response raises", rr):
             continue
         dar, dar_bytes, msg_real, common_real = rr[1]
+        if not rev and (ci % 4 == 0 or not ck.quick):
+            # the configuration-file entry point (`nxpdebugmbox dat auth -c`): credential read back from a file
+            dc_file = scratch / f"dc_{ci}.bin"
+            dc_file.write_bytes(data)
+            lcfg = {"family": fam, "certificate": str(dc_file), "dck_private_key": kk["dck"][0], "beacon": auth_beacon}
+            lr = pyres(lambda: (lambda d: (type(d).__name__, d._get_common_data(), d._get_data_for_signature(), d.export()))(DAR.load_from_config(lcfg, dac)))
+            s_dar.note({"of": dinp, "via": "load_from_config"}, cls="load_from_config")
+            if s_dar.expect(lr[0] == "ok", dinp, "DebugAuthenticateResponse.load_from_config raises for the credential / challenge that create() accepts", lr):
+                s_dar.expect(lr[1][0] == type(dar).__name__ and lr[1][1] == common_real and lr[1][2] == msg_real, dinp,
+                             "load_from_config builds another response (class / common data / signed message) than create()", lr[1][0])
+                s_dar.expect(verify_sig(kk["dck"][2], lr[1][3][len(common_real):], msg_real, pss), dinp,
+                             "signature of the response built by load_from_config does not verify under the DCK", None)
+            dc_file.unlink()
         with_uuid = dc.version.major == 2
         exp_common = data + struct.pack("<L", auth_beacon) + (dac_uuid if with_uuid else b"")
         exp_msg = exp_common + ch
@@ -686,7 +710,8 @@ def run(ck):
             if other is not None and other[1] != data:
                 alts.append(("credential", dac_bytes, other[0], auth_beacon))
             for what, db2, dc2, ab2 in alts:
-                r2 = pyres(lambda: mk_dar(dc2 or dc, DAC.parse(db2), ab2)._get_data_for_signature())
+                # (the altered responses are built with a cached signature provider: create() re-reads the private key file every time)
+                r2 = pyres(lambda: mk_dar(dc2 or dc, DAC.parse(db2), ab2, public=False)._get_data_for_signature())
                 ninp = {"of": dinp, "changed": what}
                 s_dar.note(ninp, cls="neg-" + what)
                 if s_dar.expect(r2[0] == "ok", ninp, "building the response for the altered input raises", r2):
@@ -694,6 +719,7 @@ def run(ck):
                     s_dar.expect(not verify_sig(dck_priv, dsig, r2[1], pss), ninp, f"a response verifies against a different {what}", None)
         prev_by_cls[(cls, ver)] = (dc, data)
 
+    _tick(ck, "model batches")
     ask(s_dc, reqs_dc)
     # malformed: a model `ok` against an SPSDK refusal is tolerated only where the mutation displaces key bytes (key validity is abstract)
     if drv is not None and reqs_bad:
@@ -738,9 +764,15 @@ def run(ck):
     s.exhaustive = True
 
     # ------------------------------------------------------------------------------------------ RSA public exponent 3 (informational)
+    _tick(ck, "special+inconsistent")
     run_special(ck, keys, info, classic, DC, ProtocolVersion, RKHTv1)
+    run_inconsistent(ck, keys, info, classic, ele_v1, DC, ProtocolVersion, drv)
+    _tick(ck, "cli")
+    run_cli(ck, keys, info, families, live_rows, DC, scratch)
+    _tick(ck, "ele_v2")
     # ------------------------------------------------------------------------------------------ EdgeLock enclave v2 (oracle only)
-    run_elev2(ck, keys, info, families, live_rows, DC, DebugCredentialEdgeLockEnclaveV2)
+    run_elev2(ck, keys, info, families, live_rows, DC, DebugCredentialEdgeLockEnclaveV2, drv, scratch)
+    _tick(ck, "end")
 
 
 def run_special(ck, keys, info, classic, DC, ProtocolVersion, RKHTv1):
@@ -771,49 +803,343 @@ def run_special(ck, keys, info, classic, DC, ProtocolVersion, RKHTv1):
              finding="C15-rsa-short-exponent-rotkh")
 
 
-def run_elev2(ck, keys, info, families, live_rows, DC, V2):
-    s = ck.stream("ele_v2", "EdgeLock-enclave v2 (AHAB certificate) credentials for every family/revision with ele_cnt_version 2, P-256/384/521 "
-                  "SRK + DCK: create -> sign -> export -> parse equality, permission data = socc || cc_socu || 0, certificate signature verified "
-                  "independently over all bytes before the signature block; oracle only (not modelled)")
+def run_inconsistent(ck, keys, info, classic, ele_v1, DC, ProtocolVersion, drv):
+    """Configurations whose pieces contradict each other: SPSDK must refuse them or create something that round-trips."""
+    s = ck.stream("dc_inconsistent", "configurations with a DCK of another type / size than the RoT key, a UUID that is not 16 bytes long, an explicit "
+                  "protocol version contradicting the RoT key: creation is refused, or the credential parses back to the configured values; what is "
+                  "created is also compared with the model (which has struct.pack's padding / truncation)")
+    fam_c = "lpc55s36" if "lpc55s36" in classic else classic[0]
+    fam_r = "lpc55s69" if "lpc55s69" in classic else classic[0]
+    fam_e = ele_v1[0] if ele_v1 else None
+    K = keys.kinds
+    todo = []
+
+    def cfg(fam, rot, dck, n, used, **kw):
+        c = {"family": fam, "uuid": "e004090e6bdd2155bbce9e0665805be3", "cc_socu": 1, "cc_vu": 2, "cc_beacon": 3,
+             "rot_meta": [K[rot][f"srk{i}"][1] for i in range(n)], "rot_id": used, "rotk": K[rot][f"srk{used}"][0], "dck": K[dck]["dck"][1]}
+        c.update(kw)
+        return c
+    for rot, dck in (("ecc256", "ecc384"), ("ecc384", "ecc256"), ("ecc256", "ecc521"), ("ecc521", "ecc384"), ("ecc256", "rsa2048")):
+        todo.append(("dck", {"rot": rot, "dck": dck, "family": fam_c}, cfg(fam_c, rot, dck, 2, 1), None))
+    for rot, dck in (("rsa2048", "rsa4096"), ("rsa4096", "rsa2048"), ("rsa2048", "ecc256")):
+        todo.append(("dck", {"rot": rot, "dck": dck, "family": fam_r}, cfg(fam_r, rot, dck, 1, 0), None))
+    if fam_e:
+        todo.append(("dck", {"rot": "ecc256", "dck": "ecc384", "family": fam_e}, cfg(fam_e, "ecc256", "ecc384", 4, 2), None))
+    for u in ("", "0011", "11" * 15, "22" * 17, "33" * 20):
+        todo.append(("uuid", {"uuid": u, "family": fam_c}, cfg(fam_c, "ecc256", "ecc256", 1, 0, uuid=u), None))
+        todo.append(("uuid", {"uuid": u, "family": fam_r}, cfg(fam_r, "rsa2048", "rsa2048", 2, 0, uuid=u), None))
+    for rot, ver, fam in (("ecc256", "2.1", fam_c), ("ecc384", "2.0", fam_c), ("ecc384", "2.2", fam_c), ("rsa2048", "1.1", fam_r), ("rsa4096", "1.0", fam_r),
+                          ("ecc256", "1.0", fam_c)):
+        todo.append(("version", {"rot": rot, "version": ver, "family": fam}, cfg(fam, rot, rot, 1, 0), ver))
+    reqs = []
+    for kind, desc, c, ver in todo:
+        inp = {"inconsistency": kind, **desc}
+        want_uuid = bytes.fromhex(c["uuid"])
+
+        def build(c=c, ver=ver):
+            d = DC.create_from_yaml_config(dict(c), version=ProtocolVersion(ver) if ver else None)
+            d.sign()
+            return d, d.export()
+        r = pyres(build)
+        s.note(inp, cls=f"{kind}:{r[0]}")
+        if r[0] != "ok":
+            continue  # nothing was created (an SPSDK error is the documented way; other classes are counted in the histogram)
+        dc, data = r[1]
+        pr = pyres(DC.parse, data)
+        same = pr[0] == "ok" and pyres(lambda: pr[1] == dc and pr[1].uuid == want_uuid and pr[1].dck_pub == dc.dck_pub and pr[1].export() == data) == ("ok", True)
+        s.expect(same, inp, "SPSDK silently creates a credential from a self-contradictory configuration (wrong UUID length / DCK of another size "
+                 "than the RoT key / protocol version contradicting the RoT key) that does not parse back to the configured values",
+                 pr[0] if pr[0] != "ok" else {"uuid": pr[1].uuid.hex()}, finding="C15-create-accepts-inconsistent-config")
+        if type(dc).__name__ in CLS:
+            toks = dc_tokens(dc)
+            reqs.append((inp, "export " + toks, "ok:" + data.hex(), "model export differs"))
+            reqs.append((inp, "tbs " + toks, canon(pyres(dc._get_data_to_sign)), "model data-to-sign differs"))
+    if drv is not None and reqs:
+        for (inp, _l, real, what), ans in zip(reqs, drv.batch([r[1] for r in reqs])):
+            s.compare(inp, real, ans, what)
+
+
+def run_cli(ck, keys, info, families, live_rows, DC, scratch):
+    """`nxpdebugmbox dat dc get-template / export` through click's CliRunner for every DAT family."""
+    import importlib
+    import traceback
+    s = ck.stream("cli", "every DAT family: `nxpdebugmbox -f FAMILY dat dc get-template` -> YAML with the documented keys -> filled in with key files -> "
+                  "`nxpdebugmbox dat dc export -c cfg -o file` -> the file equals the API path up to the signature, parses back, carries the configured "
+                  "values, its signature verifies independently, the echoed RKTH is the RoT hash; key type / number of keys rotate over the families")
+    try:
+        ver = importlib.import_module("spsdk.__version__")
+        if tuple(getattr(ver, "version_tuple", (0,)))[:2] < (2, 3):
+            # third-party debug-probe plugins installed in this environment refuse to load for a development version number
+            ver.version_tuple, ver.version = (2, 6, 0), "2.6.0"
+        import yaml
+        from click.testing import CliRunner
+
+        from spsdk.apps import nxpdebugmbox
+    except Exception as exc:  # noqa: BLE001
+        tb = traceback.format_exc()
+        in_repo = any(str(KEYDIR.parent.parent.parent / "spsdk") in ln for ln in tb.splitlines() if ln.strip().startswith("File")) and \
+            "site-packages" not in tb.strip().splitlines()[-3]
+        s.note(("import",))
+        s.expect(not in_repo, ("import", "spsdk.apps.nxpdebugmbox"), "the nxpdebugmbox application cannot be imported (error raised inside /repo)", repr(exc)[:300])
+        ck.extra["cli_skipped"] = repr(exc)[:300]
+        return
+    runner = CliRunner()
+    kinds_classic = ["ecc256", "rsa2048", "ecc384", "ecc521"]
+    rng = ck.rng
+    for fi_, fam in enumerate(families):
+        fi = info[fam]
+        v2 = fi["ele"] and fi["cnt_ver"] == 2
+        tpath, cpath, opath = scratch / "tmpl.yaml", scratch / "cfg.yaml", scratch / "out.dc"
+        for p in (tpath, cpath, opath):
+            if p.exists():
+                p.unlink()
+        inp = {"family": fam}
+        s.note(("template", fam), cls="template")
+        r = pyres(lambda: runner.invoke(nxpdebugmbox.main, ["-f", fam, "dat", "dc", "get-template", "-o", str(tpath), "--force"]))
+        ok = r[0] == "ok" and r[1].exit_code == 0 and tpath.exists()
+        if not s.expect(ok, ("template", fam), "`dat dc get-template` fails", (r[0], getattr(r[1], "exit_code", None), repr(getattr(r[1], "exception", None))[:200]) if r[0] == "ok" else r):
+            continue
+        tr = pyres(lambda: yaml.safe_load(tpath.read_text()))
+        need = {"family", "cc_socu", "uuid"} | ({"public_key_0"} if v2 else {"cc_vu", "cc_beacon", "rot_meta", "rot_id", "dck"})
+        if not s.expect(tr[0] == "ok" and isinstance(tr[1], dict) and need <= set(tr[1]) and tr[1].get("family") == fam, ("template", fam),
+                        "the generated template is not a YAML mapping with the documented keys for this family",
+                        sorted(tr[1]) if tr[0] == "ok" and isinstance(tr[1], dict) else tr[0], sorted(need)):
+            continue
+        cfg = dict(tr[1])
+        cfg.pop("sign_provider", None)
+        cfg.pop("signature_provider_0", None)
+        cfg.pop("signature_provider_1", None)
+        cfg.pop("public_key_1", None)
+        cfg.pop("signing_key_1", None)
+        socu, uuid = rng.getrandbits(32), bytes(rng.getrandbits(8) for _ in range(16))
+        if v2:
+            kind = ["ecc256", "ecc384", "ecc521"][fi_ % 3]
+            kk = keys.kinds[kind]
+            cfg.update({"cc_socu": hex(socu), "uuid": "0x" + uuid.hex(), "public_key_0": kk["dck"][1], "signing_key_0": kk["srk0"][0]})
+            n = used = 0
+        else:
+            kind = (["ecc256", "rsa2048", "ecc384", "ecc521"][fi_ % 4]) if not fi["ele"] else ["ecc256", "ecc384", "rsa2048", "ecc521"][fi_ % 4]
+            kk = keys.kinds[kind]
+            n = 4 if fi["ele"] else 1 + fi_ % 4
+            used = (fi_ // 4) % n
+            vu, beacon = rng.getrandbits(32), rng.getrandbits(32)
+            cfg.update({"cc_socu": socu, "cc_vu": vu, "cc_beacon": beacon, "uuid": uuid.hex(), "rot_meta": [kk[f"srk{i}"][1] for i in range(n)],
+                        "rot_id": used, "rotk": kk[f"srk{used}"][0], "dck": kk["dck"][1]})
+        cpath.write_text(yaml.safe_dump(cfg))
+        inp = {"family": fam, "keys": kind, "n": n, "used": used, "cc_socu": socu, "uuid": uuid.hex()}
+        s.note(inp, cls=("v2/" if v2 else "ele/" if fi["ele"] else "classic/") + kind)
+        r = pyres(lambda: runner.invoke(nxpdebugmbox.main, ["dat", "dc", "export", "-c", str(cpath), "-o", str(opath), "--force"]))
+        ok = r[0] == "ok" and r[1].exit_code == 0 and opath.exists()
+        obs = (r[0], getattr(r[1], "exit_code", None), repr(getattr(r[1], "exception", None))[:300]) if r[0] == "ok" else r
+        if v2 and kind == "ecc256":
+            # `_get_class_from_cfg` derives protocol version 2.0 from a P-256 key and `_get_class` then returns the EdgeLock v1 class ("dirty hack")
+            if not s.expect(ok, inp, "`dat dc export` refuses the EdgeLock v2 template filled in with P-256 keys (validated against the EdgeLock v1 schema)", obs,
+                            finding="C15-cli-elev2-p256-dispatch"):
+                continue
+        elif not s.expect(ok, inp, "`dat dc export` fails for the filled-in template", obs):
+            continue
+        data = opath.read_bytes()
+        out_txt = r[1].output
+
+        def api(c=cfg):
+            klass = DC._get_class_from_cfg(config=dict(c), family=fam, search_paths=None)
+            d = klass.create_from_yaml_config(config=dict(c))
+            d.sign()
+            return d, d.export()
+        ar = pyres(api)
+        if not s.expect(ar[0] == "ok", inp, "the API path raises for the configuration the command line accepts", ar):
+            continue
+        dc, adata = ar[1]
+        pr = pyres(DC.parse, data)
+        s.expect(pr[0] == "ok" and pr[1].export() == data and type(pr[1]) is type(dc), inp, "the file written by `dat dc export` does not parse back", pr[0])
+        pss = fi["pss"]
+        if v2:
+            so = int.from_bytes(data[4:6], "little")
+            c = COORD[int(kind[3:])]
+            s.expect(data[:so] == adata[:so] and len(data) == len(adata), inp, "command line and API produce different certificates (before the signature)", None)
+            s.expect(struct.pack("<LLL", fi["socc"], socu, 0) == data[8:20] and data[24:40] == uuid, inp, "certificate does not carry socc || cc_socu || 0 / the UUID", data[8:40].hex())
+            s.expect(verify_sig(kk["srk0"][2], data[so + 8:so + 8 + 2 * c], data[:so], False), inp, "certificate signature does not verify independently", None)
+        else:
+            cls = CLS[type(dc).__name__]
+            ver = f"{dc.version.major}.{dc.version.minor}"
+            dec = decode_dc(data, cls, ver)
+            s.expect(data[:dec["tbs_len"]] == adata[:dec["tbs_len"]] and len(data) == len(adata), inp,
+                     "command line and API produce different credentials (before the signature)", None)
+            s.expect((dec["socc"], dec["uuid"], dec["cc_socu"], dec["cc_vu"], dec["cc_beacon"]) == (fi["socc"], uuid, socu, vu, beacon), inp,
+                     "the credential file does not carry the configured values", None)
+            s.expect(verify_sig(kk[f"srk{used}"][2], dec["sig"], data[:dec["tbs_len"]], pss), inp, "signature of the credential file does not verify independently under the named RoT key", None)
+            raws3 = [pub_raw(kk[f"srk{i}"][2], 3 if kind.startswith("rsa") else None) for i in range(n)]
+            ref = ref_rot_hash(cls, ver, raws3, dc.rot_meta.export())
+            s.expect(("RKTH: " + ref.hex()) in out_txt, inp, "the RKTH echoed by `dat dc export` is not the RoT key hash of the configured keys", out_txt[-200:], ref.hex())
+
+
+def cert_tokens(c):
+    """The 8 tokens of Driver/C15.lean for a real AhabCertificate with one key set."""
+    k0 = c.public_key_0.export() + c.public_key_0.srk_data.export()
+    return " ".join([str(c.length), str(c.signature_offset), str(c._permissions), hexs(c.permission_data), str(c.fuse_version),
+                     hexs(c._uuid or b""), hexs(k0), hexs(c.signature_0.signature_data or b"")])
+
+
+def run_elev2(ck, keys, info, families, live_rows, DC, V2, drv=None, scratch=None):
+    s = ck.stream("ele_v2", "EdgeLock-enclave v2 (AHAB certificate) credentials for every family/revision with ele_cnt_version 2 x P-256/384/521 SRK + DCK x "
+                  "cc_socu / fuse_version / uuid at limits and random: create -> sign -> export -> parse equality, permission data = socc || cc_socu || 0, "
+                  "certificate signature verified independently over all bytes before the signature container and covering every head field; model: "
+                  "create, export, signed data, parse (also truncated / mutated buffers), wrapper constructor; response (AHAB signed message) built by "
+                  "load_from_config: embeds credential, challenge, beacon, UUID; container signature verified independently under the DCK; never over "
+                  "SPSDK's message for another challenge")
     rows = [(f, rev) for (f, rev), v in sorted(live_rows.items()) if v[1] == "true" and v[2] == "2" and rev != "latest"]
     rng = ck.rng
+    reqs = []
+    try:
+        from spsdk.dat.dac_packet import DebugAuthenticationChallenge as DAC
+        from spsdk.dat.dar_packet import DebugAuthenticateResponse as DAR
+    except ImportError:
+        DAC = DAR = None
+    reps = ck.budget(3, 60)
     for (f, rev) in rows:
         for bits in (256, 384, 521):
-            kk = keys.kinds[f"ecc{bits}"]
-            socu = rng.choice([0, 1, 0xFFF, U32, rng.getrandbits(32)])
-            uuid = bytes(rng.getrandbits(8) for _ in range(16))
-            cfg = {"family": f, "revision": rev, "cc_socu": hex(socu), "uuid": "0x" + uuid.hex(), "fuse_version": 0,
-                   "public_key_0": kk["dck"][1], "signing_key_0": kk["srk0"][0]}
-            inp = {"family": f, "revision": rev, "bits": bits, "cc_socu": socu, "uuid": uuid.hex()}
-            s.note(inp, cls=f"p{bits}")
+            for rep in range(reps):
+                kk = keys.kinds[f"ecc{bits}"]
+                socu = [0, U32, 0xFFF][rep] if rep < 3 else rng.choice([1, 0x80000000, rng.getrandbits(32), rng.getrandbits(16)])
+                fuse = [0, 255, 1][rep] if rep < 3 else rng.randrange(256)
+                uuid = [bytes(16), b"\xff" * 16][rep] if rep < 2 else bytes(rng.getrandbits(8) for _ in range(16))
+                cfg = {"family": f, "revision": rev, "cc_socu": hex(socu), "fuse_version": fuse, "public_key_0": kk["dck"][1], "signing_key_0": kk["srk0"][0]}
+                if uuid != bytes(16) or rep >= 3:
+                    cfg["uuid"] = "0x" + uuid.hex()   # an absent / all-zero UUID is "no UUID" for the certificate
+                inp = {"family": f, "revision": rev, "bits": bits, "cc_socu": socu, "fuse_version": fuse, "uuid": uuid.hex()}
+                s.note(inp, cls=f"p{bits}")
 
-            def build(c=cfg):
-                d = V2.create_from_yaml_config(dict(c))
-                d.sign()
-                return d, d.export()
-            r = pyres(build)
-            if r[0] != "ok":
-                # this environment may lack a prerequisite of the AHAB v2 path: not a property violation, recorded
-                s.hist["build:" + r[0]] = s.hist.get("build:" + r[0], 0) + 1
-                ck.extra.setdefault("ele_v2_build_errors", []).append(str(r)[:200])
-                continue
-            dc, data = r[1]
-            p = pyres(DC.parse, data)
-            s.expect(p[0] == "ok" and type(p[1]) is V2 and p[1] == dc and p[1].export() == data, inp,
-                     "EdgeLock v2 credential does not parse back to an equal object", p[0])
-            want_socc = int(live_rows[(f, rev)][0])
-            s.expect((dc.socc, dc.socu, dc.beacon) == (want_socc, socu, 0), inp, "permission data is not socc || cc_socu || 0", (dc.socc, dc.socu, dc.beacon))
-            s.expect(struct.pack("<LLL", want_socc, socu, 0) in data and (uuid in data or uuid[::-1] in data), inp,
-                     "exported certificate does not carry the permission data / UUID", None)
-            # AHAB certificate: signature offset at bytes 4..5; signature block = 4-byte header + 4 reserved + r || s
-            c = COORD[bits]
-            so = int.from_bytes(data[4:6], "little")
-            sig = data[so + 8:so + 8 + 2 * c]
-            s.expect(so + 8 + 2 * c == len(data) and verify_sig(kk["srk0"][2], sig, data[:so], False), inp,
-                     "certificate signature does not verify under signing_key_0 over all bytes before the signature block", so)
-            mut = bytearray(data[:so])
-            mut[8] ^= 1  # first byte of the permission data (SoC class)
-            s.expect(not verify_sig(kk["srk0"][2], sig, bytes(mut), False), inp, "certificate signature does not cover the SoC class", None)
+                def build(c=cfg):
+                    d = V2.create_from_yaml_config(dict(c))
+                    pre = (d.certificate._permissions, bytes(d.certificate.permission_data), d.certificate.fuse_version, d.certificate._uuid)
+                    d.sign()
+                    # sign() must not touch what was created; the key block can only be exported once update_fields() has run
+                    same = pre == (d.certificate._permissions, bytes(d.certificate.permission_data), d.certificate.fuse_version, d.certificate._uuid)
+                    return d, d.export(), cert_tokens_unsigned(d.certificate) if same else "changed-by-sign"
+                r = pyres(build)
+                if not s.expect(r[0] == "ok", inp, "creating / signing / exporting an EdgeLock v2 credential raises", r):
+                    continue
+                dc, data, pre = r[1]
+                p = pyres(DC.parse, data)
+                if "uuid" not in cfg and p[0] == "ok" and type(p[1]) is V2:
+                    # "no UUID" is None on the created object and 16 zero bytes on the parsed one: the same wildcard, compared after normalisation
+                    dc.certificate._uuid = dc.certificate._uuid or bytes(16)
+                    dc.uuid = dc.uuid or bytes(16)
+                s.expect(p[0] == "ok" and type(p[1]) is V2 and p[1] == dc and p[1].export() == data and p[1].uuid == dc.uuid, inp,
+                         "EdgeLock v2 credential does not parse back to an equal object", p[0])
+                want_socc = int(live_rows[(f, rev)][0])
+                s.expect((dc.socc, dc.socu, dc.beacon) == (want_socc, socu, 0), inp, "permission data is not socc || cc_socu || 0", (dc.socc, dc.socu, dc.beacon))
+                c = COORD[bits]
+                so = int.from_bytes(data[4:6], "little")
+                head_ok = (data[0], int.from_bytes(data[1:3], "little"), data[3], data[6] ^ data[7], data[7], data[8:20], data[20], data[21:24], data[24:40]) == \
+                    (2, len(data), 0xAF, 0xFF, 0x02, struct.pack("<LLL", want_socc, socu, 0), fuse, bytes(3), uuid)
+                s.expect(head_ok, inp, "certificate head does not carry version / length / tag / debug permission / socc || cc_socu || 0 / fuse version / UUID "
+                         "in the documented positions", data[:40].hex())
+                exp_key = pub_raw(kk["dck"][2])
+                s.expect(exp_key in data[40:so], inp, "the DCK public key is not inside the signed part of the certificate", None)
+                sig = data[so + 8:so + 8 + 2 * c]
+                s.expect(so + 8 + 2 * c == len(data) and data[so:so + 8] == bytes([0]) + struct.pack("<H", 8 + 2 * c) + bytes([0xD8, 0, 0, 0, 0]) and
+                         verify_sig(kk["srk0"][2], sig, data[:so], False), inp,
+                         "certificate signature does not verify under signing_key_0 over all bytes before the signature container", so)
+                for b in (1, 4, 7, 8, 12, 16, 20, 24, 39, 40, so - 1):
+                    mut = bytearray(data[:so])
+                    mut[b] ^= 1
+                    s.expect(not verify_sig(kk["srk0"][2], sig, bytes(mut), False), inp, f"certificate signature still verifies after changing byte {b}", b)
+                # -- model
+                toks = cert_tokens(dc.certificate)
+                reqs.append((inp, f"v2_create {want_socc} {socu} {fuse} {hexs(uuid if 'uuid' in cfg else b'')} " + toks.split(" ")[6], "ok:" + pre, "model create differs"))
+                reqs.append((inp, "v2_export " + toks, "ok:" + data.hex(), "model certificate export differs"))
+                reqs.append((inp, "v2_signed " + toks, canon(pyres(dc.certificate.get_signature_data)), "model signed data differs"))
+                reqs.append((inp, "v2_parse " + data.hex(), "ok:" + cert_tokens(p[1].certificate) if p[0] == "ok" else p[0], "model parse differs"))
+                if rep < 2 or not ck.quick:
+                    for kind_m, buf in [("trunc", data[:k]) for k in (0, 3, 39, 40, 41, so - 1, so, so + 7, len(data) - 1)] + \
+                            [("extend", data + b"\x00\x01"), ("tag", data[:3] + b"\xae" + data[4:]), ("version", b"\x01" + data[1:]),
+                             ("inv-perm", data[:6] + bytes([data[6] ^ 1]) + data[7:]), ("perm", data[:6] + bytes([0xFE, 0x01]) + data[8:]),
+                             ("sigtag", data[:so + 3] + b"\xd7" + data[so + 4:]), ("length+1", data[:1] + struct.pack("<H", len(data) + 1) + data[3:]),
+                             ("length-1", data[:1] + struct.pack("<H", len(data) - 1) + data[3:]), ("socc", data[:8] + bytes([data[8] ^ 0x10]) + data[9:])]:
+                        pm = pyres(DC.parse, buf)
+                        real = ("ok:" + cert_tokens(pm[1].certificate)) if pm[0] == "ok" and type(pm[1]) is V2 else (pm[0] if pm[0] != "ok" else "ok:" + type(pm[1]).__name__)
+                        minp = {"of": inp, "mutation": kind_m, "len": len(buf)}
+                        s.note(minp, cls=f"{kind_m}:{pm[0]}")
+                        if kind_m == "trunc":
+                            s.expect(pm[0] != "ok", minp, "a truncated EdgeLock v2 credential is accepted", pm[0])
+                        # a refused v2 buffer falls through to the classic dispatcher, whose answer (unknown SoC class ...) is an error as well
+                        reqs.append((minp, "v2_parse " + hexs(buf), real if real.startswith("ok:") else "E", "model parse of a malformed certificate differs", True))
+                # -- response (AHAB signed message)
+                if DAR is not None and scratch is not None and (rep == 0 or not ck.quick):
+                    run_elev2_response(s, inp, f, rev, bits, keys, dc, data, uuid, scratch, rng, DAC, DAR, info)
+    if drv is not None and reqs:
+        answers = drv.batch([r[1] for r in reqs])
+        for r, ans in zip(reqs, answers):
+            if len(r) > 4:
+                ans = ans if ans.startswith("ok:") else "E"
+            s.compare(r[0], r[2], ans, r[3])
+
+
+def cert_tokens_unsigned(c):
+    k0 = c.public_key_0.export() + c.public_key_0.srk_data.export()
+    return " ".join(["0", "0", str(c._permissions), hexs(c.permission_data), str(c.fuse_version), hexs(c._uuid or b""), hexs(k0), "-"])
+
+
+def run_elev2_response(s, inp, fam, rev, bits, keys, dc, data, uuid, scratch, rng, DAC, DAR, info):
+    """EdgeLock v2 response = AHAB signed message (container v2) carrying the credential as certificate, signed by the DCK."""
+    kk = keys.kinds[f"ecc{bits}"]
+    c = COORD[bits]
+    ch = bytes(rng.getrandbits(8) for _ in range(32))
+    beacon = rng.choice([0, 1, 0xFFFF, rng.getrandbits(16)])
+    fi = info[fam]
+    wire = (0, 2) if fi["swapped"] else (2, 0)
+    dac_bytes = struct.pack("<2HL16sL", wire[0], wire[1], dc.socc, uuid, 0) + bytes(32) + struct.pack("<3L", 1, 2, 3) + ch
+    dc_file = scratch / "dcv2.bin"
+    dc_file.write_bytes(data)
+    dinp = {"of": inp, "challenge": ch.hex(), "beacon": beacon}
+
+    def cfg():
+        return {"family": fam, "revision": rev, "certificate": str(dc_file), "beacon": beacon, "srk_set": "oem", "used_srk_id": 0, "srk_revoke_mask": 0,
+                "signing_key": kk["dck"][0], "output": str(scratch / "unused.bin"),
+                "srk_table": {"flag_ca": False, "srk_array": [kk[f"srk{i}"][1] for i in range(4)]}}
+
+    def build(db=dac_bytes):
+        dac = DAC.parse(db)
+        dac.validate_against_dc(fam, dc)
+        d = DAR.load_from_config(cfg(), dac)
+        return type(d).__name__, d.export()
+    r = pyres(build)
+    s.note(dinp, cls="response")
+    if not s.expect(r[0] == "ok" and r[1][0] == "DebugAuthenticateResponseEdgelockEnclaveV2", dinp, "building the EdgeLock v2 response (signed message) raises", r):
+        return
+    out = r[1][1]
+    # container header: version, length, tag 0x89, flags(4), sw(2), fuse(1), images(1), signature block offset(2)
+    sbo = int.from_bytes(out[12:14], "little")
+    sb = out[sbo:]
+    cert_off, _srk_off, sig_off = (int.from_bytes(sb[4 + 2 * i:6 + 2 * i], "little") for i in range(3))
+    ok_struct = out[3] == 0x89 and sb[3] == 0x90 and sb[cert_off:cert_off + len(data)] == data
+    s.expect(ok_struct, dinp, "the signed message does not embed the credential as its certificate", None)
+    msg = out[16:sbo]
+    s.expect(ch + struct.pack("<H", beacon) in msg and uuid[:8] in msg, dinp, "the message does not carry challenge || beacon (LE16) and the UUID", msg.hex())
+    # AHAB: the container signature covers header || message || signature block head || SRK table array; the certificate (= the credential,
+    # itself signed by the SRK) follows the signature and supplies the verification key
+    signed = out[:sbo + sig_off]
+    sigc = sb[sig_off:]
+    sig = sigc[8:8 + 2 * c]
+    v = sigc[3] == 0xD8 and verify_sig(kk["dck"][2], sig, signed, False)
+    s.expect(v, dinp, "the container signature does not verify (cryptography) under the credential's DCK over header || message || signature block head || SRK table", None)
+    if v:
+        s.expect(not verify_sig(keys.kinds[f"ecc{bits}"]["dck2"][2], sig, signed, False), dinp, "container signature verifies under an unrelated key", None)
+        ch2 = ch[:-1] + bytes([ch[-1] ^ 1])
+        r2 = pyres(build, dac_bytes[:-32] + ch2)
+        ninp = {"of": dinp, "changed": "challenge"}
+        s.note(ninp, cls="neg-challenge")
+        if s.expect(r2[0] == "ok", ninp, "building the response for another challenge raises", r2):
+            out2 = r2[1][1]
+            signed2 = out2[:sbo + sig_off]
+            s.expect(signed2 != signed and ch2 in signed2, ninp, "the signed part of the message does not depend on the challenge", None)
+            s.expect(not verify_sig(kk["dck"][2], sig, signed2, False), ninp, "an EdgeLock v2 response verifies against a different challenge", None)
+        for off, what in ((16 + msg.find(ch), "challenge"), (16 + msg.find(ch) + 32, "beacon"), (4, "container flags"), (sbo + 6, "signature block offsets")):
+            mut = bytearray(signed)
+            mut[off] ^= 1
+            s.expect(not verify_sig(kk["dck"][2], sig, bytes(mut), False), dinp, f"container signature does not cover the {what}", None)
+        s.expect(cert_off >= sig_off + 8 + 2 * c, dinp, "unexpected signature block layout (certificate before the signature)", (cert_off, sig_off))
 
 
 def replay(ck, data):
